@@ -24,7 +24,9 @@ RULE = ('(i) extraction: the coercion matrix = every source kind (one minimal wi
         '_coerce_to_expr_ast directly and through as_() / FST(node, mode) / fromast / code_as on both routes, result translated '
         'to the model\'s JSON and compared with the Lean model; (iii) sweep: every (source kind, target mode) pair x operand '
         'shapes (0/1/2/3 elements, nested, starred, parenthesised, multi-line, comments) x both routes, property evaluated on '
-        'the result; for every (container kind, target) cell in which some operand is coerced (thorough: every target) '
+        'the result (incl. the location of every node against the parse by pfst AND a CPython embedding of the result source, byte columns, '
+        'both routes); identifier / string alphabets include multi-byte names, alone, before other elements on the line, and everywhere; '
+        'for every (container kind, target) cell in which some operand is coerced (thorough: every target) '
         'element-class shapes of the container (every positional class alone, every ordered pair, all together, the name `_` in '
         'every position: arguments posonly/plain/default/vararg/kwonly/kwonly-default/kwarg, _type_params, _arglikes, Call, '
         '_aliases, _withitems, _decorator_list, _Assign_targets, _comprehension_ifs, _pattern_attrlikes, MatchClass, '
@@ -94,7 +96,7 @@ SOURCES = {
     'Name': ('Name', ['a', '_', '(a)', 'é']),
     'Constant': ('Constant', ['1', "'s'", 'None', '...', '(1)', '1.5', '2j', 'True', 'b"b"', '"a" "b"']),
     'Attribute': ('Attribute', ['a.b', 'a.b.c', '(a).b', '_.a', 'a . b', 'f().a']),
-    'Starred': ('expr_arglike', ['*a', '*_', '*(a)', '*a.b', '*[a, b]']),
+    'Starred': ('expr_arglike', ['*a', '*_', '*(a)', '*a.b', '*[a, b]', '*größe']),
     'Call': ('Call', ['f()', 'f(a)', 'f(a, k=b)', 'a.b(c, *d)', 'f(\n a,  # c\n k=1,\n)', 'f(a, b, c)', 'f(k=a, **b)', 'f(g(a), [b])',
                       '_(a)', 'f(a)(b)', 'f(a, k=b, l=c)', 'a.b(x=1, y=[c], z=d)', '(f)(a)']),
     'BinOp': ('BinOp', ['a | b', 'a | b | c', '(a | b) | c', 'a | (b | c)', '1+2j', 'a + b', '-1 - 2j', '(a |\n b)', '1 | None | "s"',
@@ -116,11 +118,11 @@ SOURCES = {
     'GeneratorExp': ('GeneratorExp', ['(a for a in b)']),
     'arguments': ('arguments', ['', 'a', 'a, b', 'a, /, b, *c, d=1, **e', 'a=1', '*a', 'a: int', '*, a', '**k', 'a, b=c, *d',
                                 'a,\n b  # c\n']),
-    'arg': ('arg', ['a', 'a: int', '_', 'a: b.c']),
-    'keyword': ('keyword', ['k=v', '**k', 'k=[a, b]', 'k = (v)']),
-    'alias': ('alias', ['a', 'a.b', 'a as b', '*', 'a.b as c', '_']),
+    'arg': ('arg', ['a', 'a: int', '_', 'a: b.c', 'größe', 'ñ: 日本']),
+    'keyword': ('keyword', ['k=v', '**k', 'k=[a, b]', 'k = (v)', 'größe=1', '日本=x', '**ключ', "ñ = 'ü'"]),
+    'alias': ('alias', ['a', 'a.b', 'a as b', '*', 'a.b as c', '_', 'ñ', 'é.ü as 日本']),
     '_aliases': ('_aliases', ['a', 'a, b', 'a as b, c.d', '', 'a, b, c', 'a.b']),
-    'withitem': ('withitem', ['a', 'a as b', '(a, b)', 'f(a) as (b, c)', '(a) as b', 'a as b.c']),
+    'withitem': ('withitem', ['a', 'a as b', '(a, b)', 'f(a) as (b, c)', '(a) as b', 'a as b.c', 'é as ü', "ñ('日本') as größe"]),
     '_withitems': ('_withitems', ['a', 'a, b', 'a as b, c', '', 'a, b, c', 'f(a), [b]']),
     'MatchValue': ('pattern', ['1', 'a.b', '-1', '1+2j', '"s"', '(1)']),
     'MatchSingleton': ('pattern', ['None', 'True', 'False']),
@@ -133,9 +135,9 @@ SOURCES = {
     'MatchAs': ('pattern', ['a', '_', '1 as a', '(a)', '[a] as b', 'é']),
     'MatchOr': ('pattern', ['a | b', '1 | 2 | 3', '(a | b) | c', '[a] | {1: b}', 'a | (b | c)', '(1 |\n 2)', 'None | C(a)', '(a)|b|c']),
     '_pattern_attrlikes': ('_pattern_attrlikes', ['a', 'a, b', 'a, k=b', '', 'k=1', 'a, b, c', '[a], {1: b}', 'a,\n b  # c\n']),
-    'TypeVar': ('type_param', ['T', 'T: int', '_']),
-    'ParamSpec': ('type_param', ['**P']),
-    'TypeVarTuple': ('type_param', ['*Ts', '*_']),
+    'TypeVar': ('type_param', ['T', 'T: int', '_', 'Tñ', '日本: ü']),
+    'ParamSpec': ('type_param', ['**P', '**ключ']),
+    'TypeVarTuple': ('type_param', ['*Ts', '*_', '*größe']),
     '_type_params': ('_type_params', ['T', 'T, *Ts, **P', 'T: int, U', '', 'T, U, V']),
     'And': ('boolop', ['and']),
     'Add': ('operator', ['+']),
@@ -247,7 +249,87 @@ def _embed(mode, src, node):
     return None
 
 
-def _node_dumps(node):
+def _shift(nodes, dl, dc):
+    for n in nodes:
+        for x in ast.walk(n):
+            if hasattr(x, 'lineno') and x.lineno is not None:
+                x.lineno -= dl
+                x.col_offset -= dc
+            if getattr(x, 'end_lineno', None) is not None:
+                x.end_lineno -= dl
+                x.end_col_offset -= dc
+    if any(getattr(n, 'lineno', 1) < 1 for n in nodes):
+        raise IndexError('a bare Tuple / MatchSequence root took the wrapper\'s parentheses into its own location')
+    return [ast.dump(n, include_attributes=True) for n in nodes]
+
+
+def _embed_pos(src, node):
+    """LOCATED result = CPython's parse of the result source: the source is placed on its own lines inside a construct that
+    forces the kind, the parsed nodes are shifted back by the wrapper's lines / indentation (bytes) and dumped WITH positions.
+    Returns the list to compare with `_node_dumps(node, True)`, or None where no such embedding applies (a root that is a
+    bare Tuple / MatchSequence would take the wrapper's parentheses into its own location; containers glued to a prefix)."""
+    ind = src.replace('\n', '\n  ')
+    k = node.__class__.__name__
+    if '"""' in src or "'''" in src:
+        return None
+    try:
+        if isinstance(node, ast.MatchStar):
+            return _shift([ast.parse('match _:\n case [\n  ' + ind + '\n ]: pass').body[0].cases[0].pattern.patterns[0]], 2, 2)
+        if isinstance(node, ast.pattern):
+            if isinstance(node, ast.MatchSequence) and src.lstrip()[:1] not in '[(':
+                return None
+            return _shift([ast.parse('match _:\n case (\n  ' + ind + '\n ): pass').body[0].cases[0].pattern], 2, 2)
+        if isinstance(node, ast.Starred):
+            return _shift([ast.parse('[\n' + src + '\n]', mode='eval').body.elts[0]], 1, 0)
+        if isinstance(node, ast.Slice) or (isinstance(node, ast.Tuple) and any(isinstance(e, ast.Slice) for e in node.elts)):
+            return None
+        if isinstance(node, ast.expr):
+            if isinstance(node, ast.Tuple) and src.lstrip()[:1] != '(':
+                return None
+            return _shift([ast.parse('(\n' + src + '\n)', mode='eval').body], 1, 0)
+        if isinstance(node, ast.Module):
+            return _shift([ast.parse(src)], 0, 0)
+        if isinstance(node, ast.stmt):
+            return _shift([ast.parse(src).body[0]], 0, 0)
+        if k == '_arglikes':
+            c = ast.parse('f(\n' + src + '\n)', mode='eval').body
+            return _shift(sorted(c.args + c.keywords, key=lambda x: (x.lineno, x.col_offset)), 1, 0)
+        if k == 'arguments':
+            return _shift([ast.parse('def f(\n' + src + '\n): pass').body[0].args], 1, 0)
+        if k == '_decorator_list':
+            return _shift(ast.parse(src + '\nclass c: pass').body[0].decorator_list, 0, 0)
+        if k == '_comprehension_ifs':
+            return _shift(ast.parse('[_ for _ in _\n' + src + '\n]', mode='eval').body.generators[0].ifs, 1, 0)
+        if k == '_type_params':
+            return _shift(ast.parse('type _[\n' + src + '\n] = _').body[0].type_params, 1, 0) if src.strip() else []
+        if k == '_pattern_attrlikes':
+            m = ast.parse('match _:\n case C(\n  ' + ind + '\n ): pass').body[0].cases[0].pattern
+            return _shift(m.patterns, 2, 2) + list(m.kwd_attrs) + _shift(m.kwd_patterns, 2, 2)
+        if k == 'keyword':
+            return _shift([ast.parse('f(\n' + src + '\n)', mode='eval').body.keywords[0]], 1, 0)
+        if k == 'arg':
+            return _shift([ast.parse('def f(\n' + src + '\n): pass').body[0].args.args[0]], 1, 0)
+        if k in ('TypeVar', 'ParamSpec', 'TypeVarTuple'):
+            return _shift([ast.parse('type _[\n' + src + '\n] = _').body[0].type_params[0]], 1, 0)
+    except (SyntaxError, IndexError, AttributeError):
+        return None
+    return None
+
+
+def _node_dumps(node, pos=False):
+    if pos:
+        d = lambda x: ast.dump(x, include_attributes=True)  # noqa: E731
+        k = node.__class__.__name__
+        sub = {'_arglikes': 'arglikes', '_decorator_list': 'decorator_list', '_comprehension_ifs': 'ifs', '_type_params': 'type_params'}
+        if k in sub:
+            return [d(x) for x in getattr(node, sub[k])]
+        if k == '_pattern_attrlikes':
+            return [d(x) for x in node.patterns] + list(node.kwd_attrs) + [d(x) for x in node.kwd_patterns]
+        return [d(node)]
+    return _node_dumps0(node)
+
+
+def _node_dumps0(node):
     k = node.__class__.__name__
     if k == '_arglikes':
         return [ast.dump(x) for x in node.arglikes]
@@ -323,6 +405,16 @@ def _check_result(res, route, r, target, leaves0, exp):
         if [_store_insensitive(x) for x in emb] != [_store_insensitive(x) for x in nd] and p is not None:
             fails.append((route, 'cpython-differs', f'CPython parses result source {src!r} (embedded as {k}) to {str(emb)[:160]}, '
                           f'result tree is {str(nd)[:160]}'))
+        elif p is not None:
+            # located result = parse(result source), judged by CPython (byte columns)
+            ep = _embed_pos(src, r.a)
+            if ep is not None:
+                res['located'] = True
+                np_ = _node_dumps(r.a, True)
+                if [_store_insensitive(x) for x in ep] != [_store_insensitive(x) for x in np_]:
+                    a_, b_ = ' '.join(map(str, np_)), ' '.join(map(str, ep))
+                    fails.append((route, 'positions(cpython)', f'result tree is not located where CPython locates the nodes of its '
+                                  f'source {src!r}: ' + M_first_diff(_store_insensitive(a_), _store_insensitive(b_))))
         res['embedded'] = True
     # leaves
     lv = M.leaves(r.a)
@@ -531,6 +623,7 @@ def _report(ctx, results):
                 ctx.tally('refusal_exception_class', on[8:])
         if r.get('one_sided'):
             ctx.tally('only_one_route_returns', r['one_sided'])
+        ctx.tally('result_located_by_cpython_embedding', bool(r.get('located')))
         for nt in r.get('notes', []):
             ctx.tally('notes', nt)
         for route, cls, what in r['fails']:
@@ -610,9 +703,12 @@ def _eval_put(arg):
         res['fail'] = f'put of the {kind} {src!r} gives {c1.src!r}, put of its explicit conversion to {target} gives {c2.src!r}'
     else:
         try:
-            ref = _dump(FST(c1.src, cmode).a)
+            reff = FST(c1.src, cmode)
+            ref = _dump(reff.a)
             if ref != d1:
                 res['fail_parse'] = f'container after the coercing put, {c1.src!r}, parses to another tree'
+            elif ast.dump(reff.a, include_attributes=True) != ast.dump(c1.a, include_attributes=True):
+                res['fail_pos'] = f'container after the coercing put, {c1.src!r}, has other positions than a parse of its source'
         except Exception as e:
             res['fail_parse'] = f'container source after the coercing put does not parse: {c1.src!r} ({type(e).__name__})'
     return res
@@ -646,6 +742,9 @@ def _report_puts(ctx, results):
         ctx.tally('put_coerce', f'{r.get("implicit")}/{r.get("explicit")}')
         if 'fail' in r:
             ctx.fail(f'C19|put:{r["slot"]}<-{r["kind"]}|{r["si"]}/{r["route"]}|put!=explicit', r['fail'],
+                     {'put_slot': r['slot'], 'kind': r['kind'], 'si': r['si'], 'route': r['route'], 'src': r['src'], 'pmode': r['pmode']})
+        if 'fail_pos' in r:
+            ctx.fail(f'C19|put:{r["slot"]}<-{r["kind"]}|{r["si"]}/{r["route"]}|put-positions', r['fail_pos'],
                      {'put_slot': r['slot'], 'kind': r['kind'], 'si': r['si'], 'route': r['route'], 'src': r['src'], 'pmode': r['pmode']})
         if 'fail_parse' in r:
             ctx.fail(f'C19|put:{r["slot"]}<-{r["kind"]}|{r["si"]}/{r["route"]}|put-no-parse', r['fail_parse'],
@@ -703,7 +802,7 @@ def replay(ctx, data):
         else:
             pmode, src = operand(w['kind'], w['si'])
         r = _eval_put(slot + (w['kind'], w['si'], pmode, src, w['route']))
-        for k in ('fail', 'fail_parse'):
+        for k in ('fail', 'fail_parse', 'fail_pos'):
             if k in r:
                 ctx.fail('replay', r[k], w)
         return
